@@ -136,13 +136,17 @@ const CRLF: &[u8] = b"\r\n";
 
 /// Replaces all CRLF with LF
 pub fn replace_crlf<'a>(bytes: &'a [u8]) -> Cow<'a, [u8]> {
-    if let Some(index) = bytes.windows(2).position(|window| window == CRLF) {
-        [
-            Cow::from(&bytes[0..index]),
-            replace_crlf(&bytes[index + 1..]),
-        ]
-        .concat()
-        .into()
+    if let Some(first) = bytes.windows(2).position(|window| window == CRLF) {
+        // copy everything but the CR of each CRLF pair, without recursing per pair
+        let mut replaced = Vec::with_capacity(bytes.len() - 1);
+        replaced.extend_from_slice(&bytes[0..first]);
+        for (index, byte) in bytes.iter().enumerate().skip(first) {
+            if *byte == b'\r' && bytes.get(index + 1) == Some(&b'\n') {
+                continue;
+            }
+            replaced.push(*byte);
+        }
+        replaced.into()
     } else {
         bytes.into()
     }
